@@ -101,6 +101,7 @@ type State struct {
 	noIntrinsic *ssa.Function
 	failedAsserts int
 	syncMaps map[string]*[]syncMapEntry
+	atomicVals map[string]*Value
 	guards map[*Obj]guardInfo
 	vmOnlyFailure bool
 	fmtDepth int
@@ -113,6 +114,9 @@ type spawnedCall struct {
 }
 
 func (st *State) end(status, detail string) {
+	if status == "engine-error" {
+		detail += " in " + st.curFn
+	}
 	panic(pathEnd{status, detail})
 }
 
